@@ -282,7 +282,12 @@ def gen_module(
                 filter(None, (imports,)),
                 map(
                     to_code,
-                    optimise_imports(chain(*map(infer_imports, functions_and_classes))),
+                    optimise_imports(
+                        chain.from_iterable(
+                            # `infer_imports` gives `None` for a symbol that needs no import
+                            filter(None, map(infer_imports, functions_and_classes))
+                        )
+                    ),
                 ),
             )
         )
